@@ -374,6 +374,10 @@ def shrink_candidates(case):
 def shrink(ctx, violation, fails, limit=60):
     """Greedy shrinking; `fails(case)` re-runs the judgement on one case."""
     inp = violation["input"]
+    if isinstance(inp, dict) and ("history" in inp or "other_costs" in inp):
+        # a history on one object is replayed as it is: `fails` judges FRESH inputs (another judgement), so it could
+        # only replace the recorded history by a different violation, never make it smaller
+        return violation
     case = inp["case"] if "case" in inp else inp
     steps = 0
     improved = True
@@ -461,6 +465,11 @@ def replay_inplace(inp):
     from .common import Result
 
     r = Result()
-    inplace_history(r, inp["case"], inp["history"][1], inp["algo"], policies=(inp.get("policy", "all"),))
+    if "history" not in inp:
+        # C09 records {"case", "algo", "other_costs"}: both policies, as in the original run
+        inp = dict(inp, history=[full_costs(inp["case"]), dict(full_costs(inp["case"]), **inp["other_costs"])])
+        inplace_history(r, inp["case"], inp["history"][1], inp["algo"])
+    else:
+        inplace_history(r, inp["case"], inp["history"][1], inp["algo"], policies=(inp.get("policy", "all"),))
     ok = not r.concrete
     return ok, ("ok: the recorded history gives the results of fresh inputs" if ok else "still fails: " + r.concrete[0]["what"])
